@@ -200,8 +200,9 @@ def ensure_java():
     if not srcs:
         return
     with Lock('javac'):
-        stale = [s for s in srcs if not os.path.exists(s[:-5] + '.class')
-                 or os.path.getmtime(s[:-5] + '.class') < os.path.getmtime(s)]
+        def cls(s):
+            return os.path.join(JAVADIR, 'tlc2', 'module', os.path.basename(s)[:-5] + '.class')
+        stale = [s for s in srcs if not os.path.exists(cls(s)) or os.path.getmtime(cls(s)) < os.path.getmtime(s)]
         if stale:
             sh(['javac', '-cp', TLAJAR + ':' + CMJAR, '-d', JAVADIR] + srcs, timeout=300)
 
@@ -242,7 +243,7 @@ def tlc(module, cfg, workers=1, env=None, timeout=900, xmx='3g', xss='512m', ext
         raise Infra('TLC timeout on %s/%s after %ds' % (module, cfg, timeout))
     if ('Parsing or semantic analysis failed' in out or 'java.lang.OutOfMemoryError' in out
             or 'java.lang.StackOverflowError' in out or 'Error: Could not' in out):
-        raise Infra('TLC failed on %s/%s:\n%s' % (module, cfg, out[-3000:]))
+        raise Infra('TLC failed on %s/%s:\n%s' % (module, cfg, tlc_error_summary(out, 12)[-1200:]))
     if check and not r['ok']:
         raise Infra('TLC did not complete cleanly on %s/%s:\n%s' % (module, cfg, out[-3000:]))
     return r
